@@ -146,6 +146,33 @@ func (g *SpecGen) hasMapSeen(t *Type, seen map[string]bool) bool {
 	return false
 }
 
+// structOnly: values of type t contain no message, union or map (their wire size is then a function of the
+// decoded value whatever the input was: there are no skipped, repeated or reordered parts).
+func (g *SpecGen) structOnly(t *Type, seen map[string]bool) bool {
+	switch t.Kind {
+	case MapK:
+		return false
+	case Arr:
+		return g.structOnly(t.Elem, seen)
+	case Rec:
+		if seen[t.Name] {
+			return false
+		}
+		seen[t.Name] = true
+		defer delete(seen, t.Name)
+		r := g.s.record(t.Name)
+		if r == nil || r.Kind != Struct {
+			return false
+		}
+		for _, f := range r.Fields {
+			if !g.structOnly(f.Type, seen) {
+				return false
+			}
+		}
+	}
+	return true
+}
+
 func (g *SpecGen) fn(kind, id string) string { return kind + "_" + g.pfx + "_" + id }
 
 // flat returns the SMT sorts of the flattened value of t.
@@ -837,6 +864,12 @@ func (g *SpecGen) decodeContract(r *Record) {
 	g.line("  ensures [LATCH] (failed(ur(ior)) && !old(failed(ur(ior)))) ==> err != nil")
 	g.line("  ensures [LATCH] istype(ior, %s) ==> okR(%s) && sid(%s.Reader) == old(sid(%s.Reader)) && (old(%s.Err) != nil ==> %s.Err != nil)", erT, asp, asp, asp, asp, asp)
 	g.line("  ensures [CONS] (istype(ior, %s) && err == nil) ==> %s.Reader == old(%s.Reader)", erT, asp, asp)
+	self := R(r.Name)
+	consume := r.Kind == Struct && g.structOnly(self, map[string]bool{}) && g.boundOK(self, map[string]bool{})
+	if consume {
+		// C05: exactly the bytes of one record are taken from the stream, however the reader fragments its reads
+		g.line("  ensures [CONSUME] err == nil ==> taken(ur(ior)) == old(taken(ur(ior))) + %s", g.sizeX(self, "*bbp"))
+	}
 	g.line("  modifies *bbp, %s", g.streamMods(asp, r))
 	emitMake := func() {
 		mk := "Make"
@@ -848,6 +881,9 @@ func (g *SpecGen) decodeContract(r *Record) {
 		g.line("  ensures [LATCH] okR(r) && sid(r.Reader) == old(sid(r.Reader)) && (old(r.Err) != nil ==> r.Err != nil)")
 		g.line("  ensures [LATCH] (failed(r.Reader) && !old(failed(r.Reader))) ==> result1 != nil")
 		g.line("  ensures [CONS] result1 == nil ==> r.Reader == old(r.Reader)")
+		if consume {
+			g.line("  ensures [CONSUME] result1 == nil ==> taken(r.Reader) == old(taken(r.Reader)) + %s", g.sizeX(self, "result0"))
+		}
 		g.line("  modifies %s", g.streamMods("r", r))
 	}
 	defer emitMake()
@@ -870,8 +906,9 @@ func (g *SpecGen) decodeContract(r *Record) {
 			g.line("  invariant loop %d: %s", k, extra)
 		}
 	}
-	var walkArr func(t *Type, v string, depth int)
-	walkArr = func(t *Type, v string, depth int) {
+	var marks []string
+	var walkArr func(t *Type, v string, depth int, pre string)
+	walkArr = func(t *Type, v string, depth int, pre string) {
 		if t.Kind == MapK {
 			// the generator names the key variable of a map loop after its nesting depth
 			k := w.ord
@@ -881,7 +918,7 @@ func (g *SpecGen) decodeContract(r *Record) {
 				nn = strings.TrimPrefix(v, "*") + " != nil && "
 			}
 			inv(k, fmt.Sprintf("%s%s != nil", nn, v))
-			walkArr(t.Elem, fmt.Sprintf("(%s)[k%d]", v, depth), depth+1)
+			walkArr(t.Elem, fmt.Sprintf("(%s)[k%d]", v, depth), depth+1, "")
 			return
 		}
 		if t.Kind != Arr || (t.Elem.Kind == Prim && t.Elem.Name == "byte") {
@@ -894,19 +931,44 @@ func (g *SpecGen) decodeContract(r *Record) {
 			nn = strings.TrimPrefix(v, "*") + " != nil && "
 		}
 		inv(k, fmt.Sprintf("%sranged(%d) == %s", nn, k, v))
-		walkArr(t.Elem, fmt.Sprintf("ranged(%d)[it(%d)]", k, k), depth+1)
+		if consume && pre != "" && isByteT(t.Elem) {
+			// a uint8 array decoded element by element: one byte each (byte arrays have no prefix-sum function)
+			g.line("  invariant loop %d: r.Err == nil ==> taken(r.Reader) == old(taken(ur(ior))) + %s + 4 + it(%d)", k, pre, k)
+			return
+		}
+		if consume && pre != "" {
+			sz := fmt.Sprintf("%s(ranged(%d), it(%d))", g.fn("sizeel", t.ID()), k, k)
+			szNext := fmt.Sprintf("%s(ranged(%d), it(%d) + 1)", g.fn("sizeel", t.ID()), k, k)
+			g.line("  invariant loop %d: (r.Err == nil ==> taken(r.Reader) == old(taken(ur(ior))) + %s + 4 + %s) && UnfI(%s)", k, pre, sz, sz)
+			for _, m := range marks {
+				g.line("  invariant loop %d: %s", k, m)
+			}
+			saved := marks
+			marks = append(append([]string(nil), marks...), fmt.Sprintf("UnfI(%s)", szNext))
+			walkArr(t.Elem, fmt.Sprintf("ranged(%d)[it(%d)]", k, k), depth+1, fmt.Sprintf("%s + 4 + %s", pre, sz))
+			marks = saved
+			return
+		}
+		walkArr(t.Elem, fmt.Sprintf("ranged(%d)[it(%d)]", k, k), depth+1, "")
 	}
 	switch r.Kind {
 	case Struct:
+		pre := "0"
 		for _, f := range r.Fields {
-			walkArr(f.Type, g.fieldExpr(r, f), 1)
+			v := g.fieldExpr(r, f)
+			if consume {
+				walkArr(f.Type, v, 1, pre)
+				pre = pre + " + " + g.sizeX(f.Type, v)
+			} else {
+				walkArr(f.Type, v, 1, "")
+			}
 		}
 	case Message:
 		k := w.ord
 		w.ord++
 		inv(k, "")
 		for _, f := range msgFields(r, false) {
-			walkArr(f.Type, "*"+g.fieldExpr(r, f), 1)
+			walkArr(f.Type, "*"+g.fieldExpr(r, f), 1, "")
 		}
 	case Union:
 		k := w.ord
@@ -1016,6 +1078,15 @@ func (g *SpecGen) unmarshalContract(r *Record) {
 	}
 	if bound {
 		g.line("  ensures [BOUND] (old(%s) && err == nil) ==> %s <= len(buf)", zero, g.sizeX(self, "*bbp"))
+	}
+	if r.Kind == Message || r.Kind == Union {
+		// a message / union is framed by its length prefix: a buffer that does not hold the whole declared
+		// body is truncated input, whatever the body contains (e.g. fields this version does not know)
+		hdr := 4 // message: the declared length counts the body including its terminator
+		if r.Kind == Union {
+			hdr = 5 // union: the declared length counts what follows the discriminator byte
+		}
+		g.line("  ensures [FRAMELEN] err == nil ==> len(buf) >= %d && %d + old(leval(buf, 0, 4)) <= len(buf)", hdr, hdr)
 	}
 	// no single make() requests memory out of proportion to the input still to be read
 	g.line("  assert after \"make(\": [ALLOC] lastalloc() <= %d * (len(buf) - at)", allocK)
